@@ -52,6 +52,17 @@ CLAIMS = {
              "discharged by correspondence, not by a theorem (C14).",
         tech="Lean 4 proof (mutual structural induction over item trees + refinement to the concrete model) + exhaustive-small correspondence",
         ref="DESIGN.md §7 C15"),
+    "C16": dict(
+        text="Lean theorems over every finite include graph (self-includes, cycles, diamonds, unresolvable includes): "
+             "collect_terminates (the worklist of collect_sources terminates within collectFuel), collect_exact (file set = files "
+             "reachable through resolvable includes), collect_nodup, link_iff_resolved, indexed_once / indexed_exact (the "
+             "indexer's include descent visits exactly the reachable files, each once), unresolved_diagnosed. Tied to "
+             "file_system.rs/index.rs by exhaustive correspondence over every edge set on <= 3 (quick) / <= 4 (thorough) files "
+             "with missing targets and an INCLUDE_DIR variant, plus random larger graphs, through a real AnalysisHost.",
+        note="Model: Include.lean; include path resolution is abstracted in the model (checked by the generator's reference "
+             "resolution against the implementation).",
+        tech="Lean 4 proof (BFS/DFS invariants over all finite graphs) + exhaustive-small differential correspondence",
+        ref="DESIGN.md §7 C16"),
     "C20": dict(
         text="Lean theorems by `decide +kernel` over tables regenerated from completion.rs / lexer.rs / token_kind.rs / "
              "statement.rs / type.rs on every run: keywords_lex, types_lex, values_lex, statement_arms_match, "
